@@ -1,11 +1,332 @@
-/- C18 — graphs are ingested and persisted faithfully: property theorems. -/
-import SkNet.Model.Ingest
+/- C18 — graphs are ingested and persisted faithfully: property theorems.
+
+Model: SkNet/Model/Ingest.lean (from_edge_array, from_edge_list, from_adjacency_list), Csv.lean (scan_header,
+from_csv), Persist.lean (save / load, is_within_directory, safe_extract). Specification: SkNet/Spec/Ingest.lean.
+-/
+import SkNet.Lemmas.Ingest
 import SkNet.Model.Csv
 import SkNet.Model.Persist
-import SkNet.Spec.Ingest
 
 namespace SkNet.C18
 open SkNet SkNet.Ingest SkNet.Persist
+
+/-! ## ★ edge_array_entry, names_roundtrip -/
+
+/-- **edge_array_entry (named graphs).** When the identifiers are not integers, or `reindex` is on, the graph
+    returned by `from_edge_array` carries names for its rows and columns, the shape is the number of names, and
+    entry (i, j) is the value the specification reads off the edge list for the identifiers `names_row[i]`,
+    `names_col[j]`: the sum of the listed weights of that edge (the first one if `sum_duplicates` is off, a
+    binary value if `weighted` is off), plus the transposed contribution when the graph is undirected; for all
+    edge lists, weights and the 2⁵ flag combinations (`shape`, `matrix_only` do not matter here). -/
+theorem edge_array_entry_named [DecidableEq α] (lt : α → α → Bool) (asInt : Option (α → Int))
+    (rows : List (α × α)) (weights : Option (List Rat)) (f : Flags) (g : Graph α)
+    (hn : asInt = none ∨ f.reindex = true)
+    (h : fromEdgeArray lt asInt rows weights f = .ok g) :
+    ∃ rn cn, g.rowNames = some rn ∧ g.colNames = some cn ∧
+      g.matrix.nRow = rn.length ∧ g.matrix.nCol = cn.length ∧
+      ∀ i j a b, rn[i]? = some a → cn[j]? = some b →
+        g.matrix.entry i j = specEntry f (rows.zip (weightsOf rows weights)) a b := by
+  unfold fromEdgeArray fromEdgeArrayWith at h
+  unfold weightsOf
+  simp only at h
+  split at h
+  · cases h
+  · by_cases hb : f.bipartite = true
+    · simp only [hb, if_true] at h
+      split at h
+      · cases h
+      · rename_i ar har
+        split at h
+        · cases h
+        · rename_i ac hac
+          cases h
+          obtain ⟨hrn, hrl, hri⟩ := axisOf_named _ _ _ _ _ _ hn har
+          obtain ⟨hcn, hcl, hci⟩ := axisOf_named _ _ _ _ _ _ hn hac
+          refine ⟨uniq lt ((typedEdges lt rows (weights.getD (List.replicate rows.length 1)) f).map (·.1.1)),
+            uniq lt ((typedEdges lt rows (weights.getD (List.replicate rows.length 1)) f).map (·.1.2)),
+            by simp [Graph.rowNames, hrn], by simp [Graph.colNames, hcn], ?_, ?_, ?_⟩
+          · simpa [bipMatrix] using hrl
+          · simpa [bipMatrix] using hcl
+          · intro i j a b ha hb'
+            apply entry_bipMatrix lt rows _ f hb ar ac i j a b
+            · intro e he
+              rw [hri]
+              exact pos_eq_iff _ (nodup_uniq _ _) i a _ ha
+                ((mem_uniq _ _ _).mpr (List.mem_map.mpr ⟨e, he, rfl⟩))
+            · intro e he
+              rw [hci]
+              exact pos_eq_iff _ (nodup_uniq _ _) j b _ hb'
+                ((mem_uniq _ _ _).mpr (List.mem_map.mpr ⟨e, he, rfl⟩))
+    · have hb' : f.bipartite = false := by simpa using hb
+      simp only [hb', Bool.false_eq_true, if_false] at h
+      split at h
+      · cases h
+      · rename_i ax hax
+        cases h
+        obtain ⟨hnn, hnl, hni⟩ := axisOf_named _ _ _ _ _ _ hn hax
+        refine ⟨uniq lt ((typedEdges lt rows (weights.getD (List.replicate rows.length 1)) f).flatMap
+              fun e => [e.1.1, e.1.2]),
+            uniq lt ((typedEdges lt rows (weights.getD (List.replicate rows.length 1)) f).flatMap
+              fun e => [e.1.1, e.1.2]),
+            by simp [Graph.rowNames, hnn], by simp [Graph.colNames, hnn], ?_, ?_, ?_⟩
+        · simp only [sqMatrix]; split <;> simpa [directed2undirected, apply_ite] using hnl
+        · simp only [sqMatrix]; split <;> simpa [directed2undirected, apply_ite] using hnl
+        · intro i j a b ha hbj
+          have hm1 : ∀ e ∈ typedEdges lt rows (weights.getD (List.replicate rows.length 1)) f, e.1.1 ∈
+              uniq lt ((typedEdges lt rows (weights.getD (List.replicate rows.length 1)) f).flatMap
+                fun e => [e.1.1, e.1.2]) := by
+            intro e he
+            exact (mem_uniq _ _ _).mpr (List.mem_flatMap.mpr ⟨e, he, by simp⟩)
+          have hm2 : ∀ e ∈ typedEdges lt rows (weights.getD (List.replicate rows.length 1)) f, e.1.2 ∈
+              uniq lt ((typedEdges lt rows (weights.getD (List.replicate rows.length 1)) f).flatMap
+                fun e => [e.1.1, e.1.2]) := by
+            intro e he
+            exact (mem_uniq _ _ _).mpr (List.mem_flatMap.mpr ⟨e, he, by simp⟩)
+          apply entry_sqMatrix lt rows _ f hb' ax i j a b
+          · intro e he; rw [hni]; exact pos_eq_iff _ (nodup_uniq _ _) i a _ ha (hm1 e he)
+          · intro e he; rw [hni]; exact pos_eq_iff _ (nodup_uniq _ _) j b _ hbj (hm2 e he)
+          · intro e he; rw [hni]; exact pos_eq_iff _ (nodup_uniq _ _) j b _ hbj (hm1 e he)
+          · intro e he; rw [hni]; exact pos_eq_iff _ (nodup_uniq _ _) i a _ ha (hm2 e he)
+
+example : ∃ g, fromEdgeArray ltStr none [("b", "a"), ("a", "b"), ("b", "a")] (some [2, 3, 1/2]) {} = .ok g ∧
+    g.rowNames = some ["a", "b"] ∧ g.matrix.entry 0 1 = 2 + 3 + 1/2 := by
+  refine ⟨_, rfl, ?_, ?_⟩ <;> decide +kernel
+
+/-- **edge_array_entry (integer identifiers, no reindexing).** The graph carries no names: index `i` *is* the
+    identifier `i`. Every listed identifier is non-negative and below the dimension, the dimensions are at
+    least the requested `shape`, and entry (i, j) is the value the specification reads off the edge list for
+    the integers (i, j) — in particular 0 for the padding rows / columns. -/
+theorem edge_array_entry_int (rows : List (Int × Int)) (weights : Option (List Rat)) (f : Flags) (g : Graph Int)
+    (hr : f.reindex = false)
+    (h : fromEdgeArray ltInt (some id) rows weights f = .ok g) :
+    g.names = none ∧ g.namesRow = none ∧ g.namesCol = none ∧
+    (∀ e ∈ rows, 0 ≤ e.1 ∧ 0 ≤ e.2 ∧ e.1.toNat < g.matrix.nRow ∧ e.2.toNat < g.matrix.nCol) ∧
+    (∀ s, f.shape = some s → s.1 ≤ g.matrix.nRow ∧ (f.bipartite = true → s.2 ≤ g.matrix.nCol)) ∧
+    ∀ i j : Nat, g.matrix.entry i j = specEntry f (rows.zip (weightsOf rows weights)) (i : Int) (j : Int) := by
+  unfold fromEdgeArray fromEdgeArrayWith at h
+  unfold weightsOf
+  simp only at h
+  split at h
+  · cases h
+  · rename_i hlen
+    have hlen' : (weights.getD (List.replicate rows.length 1)).length = rows.length := by
+      simpa using hlen
+    have hkeys := keys_typedEdges ltInt rows _ f hlen'
+    have toNat_iff : ∀ (x : Int) (i : Nat), 0 ≤ x → ((id x).toNat = i ↔ x = (i : Int)) := by
+      intro x i hx; simp only [id]; omega
+    have hdim : ∀ (sd : Option Nat) (ids : List Int) (s : Nat), sd = some s → s ≤ specDim sd (ids.map id) := by
+      intro sd ids s hs
+      subst hs
+      exact Nat.le_max_left _ _
+    by_cases hb : f.bipartite = true
+    · simp only [hb, if_true, hr] at h
+      split at h
+      · cases h
+      · rename_i ar har
+        split at h
+        · cases h
+        · rename_i ac hac
+          cases h
+          obtain ⟨hrn, hri, hrpos, _, hrdim, hrlt⟩ := axisOf_int _ _ _ _ _ har
+          obtain ⟨hcn, hci, hcpos, _, hcdim, hclt⟩ := axisOf_int _ _ _ _ _ hac
+          refine ⟨hrn, hrn, hcn, ?_, ?_, ?_⟩
+          · intro e he
+            obtain ⟨e', he', hee⟩ := List.mem_map.mp ((hkeys e).mpr he)
+            have h1 := hrpos e'.1.1 (List.mem_map.mpr ⟨e', he', rfl⟩)
+            have h2 := hcpos e'.1.2 (List.mem_map.mpr ⟨e', he', rfl⟩)
+            have h3 := hrlt e'.1.1 (List.mem_map.mpr ⟨e', he', rfl⟩)
+            have h4 := hclt e'.1.2 (List.mem_map.mpr ⟨e', he', rfl⟩)
+            subst hee
+            exact ⟨h1, h2, h3, h4⟩
+          · intro s hs
+            simp only [bipMatrix, csrOf_nRow, csrOf_nCol]
+            constructor
+            · rw [hrdim]; exact hdim _ _ _ (by simp [hs])
+            · intro _; rw [hcdim]; exact hdim _ _ _ (by simp [hs])
+          · intro i j
+            apply entry_bipMatrix ltInt rows _ f hb ar ac i j
+            · intro e he
+              rw [hri]
+              exact toNat_iff _ _ (hrpos _ (List.mem_map.mpr ⟨e, he, rfl⟩))
+            · intro e he
+              rw [hci]
+              exact toNat_iff _ _ (hcpos _ (List.mem_map.mpr ⟨e, he, rfl⟩))
+    · have hb' : f.bipartite = false := by simpa using hb
+      simp only [hb', Bool.false_eq_true, if_false, hr] at h
+      split at h
+      · cases h
+      · rename_i ax hax
+        cases h
+        obtain ⟨hnn, hni, hpos, _, hdim', hlt⟩ := axisOf_int _ _ _ _ _ hax
+        have hn : ∀ M : Coo, (sqMatrix f.weighted f.directed (weightKind f.weighted
+            (weights.getD (List.replicate rows.length 1))) (typedEdges ltInt rows
+            (weights.getD (List.replicate rows.length 1)) f) ax).nRow = ax.n ∧
+            (sqMatrix f.weighted f.directed (weightKind f.weighted
+            (weights.getD (List.replicate rows.length 1))) (typedEdges ltInt rows
+            (weights.getD (List.replicate rows.length 1)) f) ax).nCol = ax.n := by
+          intro _
+          simp only [sqMatrix]
+          constructor <;> (split <;> simp [directed2undirected, apply_ite])
+        have hm1 : ∀ e ∈ typedEdges ltInt rows (weights.getD (List.replicate rows.length 1)) f, e.1.1 ∈
+            (typedEdges ltInt rows (weights.getD (List.replicate rows.length 1)) f).flatMap
+              fun e => [e.1.1, e.1.2] := by
+          intro e he
+          exact List.mem_flatMap.mpr ⟨e, he, by simp⟩
+        have hm2 : ∀ e ∈ typedEdges ltInt rows (weights.getD (List.replicate rows.length 1)) f, e.1.2 ∈
+            (typedEdges ltInt rows (weights.getD (List.replicate rows.length 1)) f).flatMap
+              fun e => [e.1.1, e.1.2] := by
+          intro e he
+          exact List.mem_flatMap.mpr ⟨e, he, by simp⟩
+        refine ⟨hnn, rfl, rfl, ?_, ?_, ?_⟩
+        · intro e he
+          obtain ⟨e', he', hee⟩ := List.mem_map.mp ((hkeys e).mpr he)
+          subst hee
+          rw [(hn ⟨0, 0, .int, []⟩).1, (hn ⟨0, 0, .int, []⟩).2]
+          exact ⟨hpos _ (hm1 e' he'), hpos _ (hm2 e' he'), hlt _ (hm1 e' he'), hlt _ (hm2 e' he')⟩
+        · intro s hs
+          rw [(hn ⟨0, 0, .int, []⟩).1]
+          constructor
+          · rw [hdim']; exact hdim _ _ _ (by simp [hs])
+          · intro hbt; rw [hb'] at hbt; cases hbt
+        · intro i j
+          apply entry_sqMatrix ltInt rows _ f hb' ax i j
+          · intro e he; rw [hni]; exact toNat_iff _ _ (hpos _ (hm1 e he))
+          · intro e he; rw [hni]; exact toNat_iff _ _ (hpos _ (hm2 e he))
+          · intro e he; rw [hni]; exact toNat_iff _ _ (hpos _ (hm1 e he))
+          · intro e he; rw [hni]; exact toNat_iff _ _ (hpos _ (hm2 e he))
+
+example : ∃ g, fromEdgeArray ltInt (some id) [(0, 3), (3, 0), (0, 3)] none { shape := some (2, 7) } = .ok g ∧
+    g.matrix.nRow = 4 ∧ g.matrix.entry 0 3 = 3 ∧ g.matrix.entry 1 2 = 0 := by
+  refine ⟨_, rfl, ?_, ?_, ?_⟩ <;> decide +kernel
+
+/-- **names_roundtrip.** For a named graph the names number the identifiers one-to-one: no identifier is listed
+    twice, every identifier of the edge list has an index inside the matrix whose name is that identifier
+    (rows: sources, columns: targets; all nodes when not bipartite), and every name is an identifier of the list. -/
+theorem names_roundtrip [DecidableEq α] (lt : α → α → Bool) (asInt : Option (α → Int))
+    (rows : List (α × α)) (weights : Option (List Rat)) (f : Flags) (g : Graph α)
+    (hn : asInt = none ∨ f.reindex = true)
+    (h : fromEdgeArray lt asInt rows weights f = .ok g) :
+    ∃ rn cn, g.rowNames = some rn ∧ g.colNames = some cn ∧ rn.Nodup ∧ cn.Nodup ∧
+      (∀ e ∈ rows, (∃ i, i < g.matrix.nRow ∧ rn[i]? = some e.1) ∧ (∃ j, j < g.matrix.nCol ∧ cn[j]? = some e.2)) ∧
+      (∀ a ∈ rn, ∃ e ∈ rows, e.1 = a ∨ (f.bipartite = false ∧ e.2 = a)) ∧
+      (∀ b ∈ cn, ∃ e ∈ rows, e.2 = b ∨ (f.bipartite = false ∧ e.1 = b)) := by
+  unfold fromEdgeArray fromEdgeArrayWith at h
+  simp only at h
+  split at h
+  · cases h
+  · rename_i hlen
+    have hlen' : (weights.getD (List.replicate rows.length 1)).length = rows.length := by
+      simpa using hlen
+    have hkeys := keys_typedEdges lt rows _ f hlen'
+    by_cases hb : f.bipartite = true
+    · simp only [hb, if_true] at h
+      split at h
+      · cases h
+      · rename_i ar har
+        split at h
+        · cases h
+        · rename_i ac hac
+          cases h
+          obtain ⟨hrn, hrl, _⟩ := axisOf_named _ _ _ _ _ _ hn har
+          obtain ⟨hcn, hcl, _⟩ := axisOf_named _ _ _ _ _ _ hn hac
+          refine ⟨uniq lt ((typedEdges lt rows (weights.getD (List.replicate rows.length 1)) f).map (·.1.1)),
+            uniq lt ((typedEdges lt rows (weights.getD (List.replicate rows.length 1)) f).map (·.1.2)),
+            by simp [Graph.rowNames, hrn], by simp [Graph.colNames, hcn], nodup_uniq _ _, nodup_uniq _ _, ?_, ?_, ?_⟩
+          · intro e he
+            obtain ⟨e', he', hee⟩ := List.mem_map.mp ((hkeys e).mpr he)
+            subst hee
+            have m1 := (mem_uniq lt _ _).mpr (List.mem_map.mpr ⟨e', he', rfl⟩ :
+              e'.1.1 ∈ (typedEdges lt rows (weights.getD (List.replicate rows.length 1)) f).map (·.1.1))
+            have m2 := (mem_uniq lt _ _).mpr (List.mem_map.mpr ⟨e', he', rfl⟩ :
+              e'.1.2 ∈ (typedEdges lt rows (weights.getD (List.replicate rows.length 1)) f).map (·.1.2))
+            refine ⟨⟨_, ?_, getElem?_pos _ _ m1⟩, ⟨_, ?_, getElem?_pos _ _ m2⟩⟩
+            · simp only [bipMatrix, csrOf_nRow]; rw [hrl]; exact pos_lt _ _ m1
+            · simp only [bipMatrix, csrOf_nCol]; rw [hcl]; exact pos_lt _ _ m2
+          · intro a ha
+            obtain ⟨e', he', hee⟩ := List.mem_map.mp ((mem_uniq lt _ _).mp ha)
+            exact ⟨e'.1, (hkeys _).mp (List.mem_map.mpr ⟨e', he', rfl⟩), Or.inl hee⟩
+          · intro b hb2
+            obtain ⟨e', he', hee⟩ := List.mem_map.mp ((mem_uniq lt _ _).mp hb2)
+            exact ⟨e'.1, (hkeys _).mp (List.mem_map.mpr ⟨e', he', rfl⟩), Or.inl hee⟩
+    · have hb' : f.bipartite = false := by simpa using hb
+      simp only [hb', Bool.false_eq_true, if_false] at h
+      split at h
+      · cases h
+      · rename_i ax hax
+        cases h
+        obtain ⟨hnn, hnl, _⟩ := axisOf_named _ _ _ _ _ _ hn hax
+        have hN : (sqMatrix f.weighted f.directed (weightKind f.weighted
+            (weights.getD (List.replicate rows.length 1))) (typedEdges lt rows
+            (weights.getD (List.replicate rows.length 1)) f) ax).nRow = ax.n ∧
+            (sqMatrix f.weighted f.directed (weightKind f.weighted
+            (weights.getD (List.replicate rows.length 1))) (typedEdges lt rows
+            (weights.getD (List.replicate rows.length 1)) f) ax).nCol = ax.n := by
+          simp only [sqMatrix]
+          constructor <;> (split <;> simp [directed2undirected, apply_ite])
+        have hm : ∀ e ∈ typedEdges lt rows (weights.getD (List.replicate rows.length 1)) f,
+            e.1.1 ∈ uniq lt ((typedEdges lt rows (weights.getD (List.replicate rows.length 1)) f).flatMap
+                fun e => [e.1.1, e.1.2]) ∧
+            e.1.2 ∈ uniq lt ((typedEdges lt rows (weights.getD (List.replicate rows.length 1)) f).flatMap
+                fun e => [e.1.1, e.1.2]) := by
+          intro e he
+          exact ⟨(mem_uniq _ _ _).mpr (List.mem_flatMap.mpr ⟨e, he, by simp⟩),
+                 (mem_uniq _ _ _).mpr (List.mem_flatMap.mpr ⟨e, he, by simp⟩)⟩
+        have hback : ∀ a ∈ uniq lt ((typedEdges lt rows (weights.getD (List.replicate rows.length 1)) f).flatMap
+            fun e => [e.1.1, e.1.2]), ∃ e ∈ rows, e.1 = a ∨ e.2 = a := by
+          intro a ha
+          obtain ⟨e', he', hee⟩ := List.mem_flatMap.mp ((mem_uniq lt _ _).mp ha)
+          refine ⟨e'.1, (hkeys _).mp (List.mem_map.mpr ⟨e', he', rfl⟩), ?_⟩
+          simp only [List.mem_cons, List.not_mem_nil, or_false] at hee
+          rcases hee with hee | hee
+          · exact Or.inl hee.symm
+          · exact Or.inr hee.symm
+        refine ⟨uniq lt ((typedEdges lt rows (weights.getD (List.replicate rows.length 1)) f).flatMap
+              fun e => [e.1.1, e.1.2]),
+          uniq lt ((typedEdges lt rows (weights.getD (List.replicate rows.length 1)) f).flatMap
+              fun e => [e.1.1, e.1.2]),
+          by simp [Graph.rowNames, hnn], by simp [Graph.colNames, hnn], nodup_uniq _ _, nodup_uniq _ _,
+          ?_, ?_, ?_⟩
+        · intro e he
+          obtain ⟨e', he', hee⟩ := List.mem_map.mp ((hkeys e).mpr he)
+          subst hee
+          obtain ⟨m1, m2⟩ := hm e' he'
+          refine ⟨⟨_, ?_, getElem?_pos _ _ m1⟩, ⟨_, ?_, getElem?_pos _ _ m2⟩⟩
+          · rw [hN.1, hnl]; exact pos_lt _ _ m1
+          · rw [hN.2, hnl]; exact pos_lt _ _ m2
+        · intro a ha
+          obtain ⟨e, he, h1 | h1⟩ := hback a ha
+          · exact ⟨e, he, Or.inl h1⟩
+          · exact ⟨e, he, Or.inr ⟨hb', h1⟩⟩
+        · intro b hb2
+          obtain ⟨e, he, h1 | h1⟩ := hback b hb2
+          · exact ⟨e, he, Or.inr ⟨hb', h1⟩⟩
+          · exact ⟨e, he, Or.inl h1⟩
+
+example : ∃ g, fromEdgeArray ltStr none [("b", "a"), ("c", "a")] none { bipartite := true } = .ok g ∧
+    g.rowNames = some ["b", "c"] ∧ g.colNames = some ["a"] ∧ g.matrix.nRow = 2 ∧ g.matrix.nCol = 1 := by
+  refine ⟨_, rfl, ?_, ?_, ?_, ?_⟩ <;> decide +kernel
+
+/-- **F13, pinned code.** With `directed2undirected(matrix)` called with its default `weighted=True`, the
+    unweighted undirected graph with the two reciprocal edges (0,1), (1,0) gets the entry 2: not binary. -/
+theorem pinned_unweighted_not_binary :
+    ∃ g, fromEdgeArrayPinned ltInt (some id) [(0, 1), (1, 0)] none { weighted := false } = .ok g ∧
+      g.matrix.entry 0 1 = 2 ∧
+      specEntry { weighted := false } ([(0, 1), (1, 0)].zip (weightsOf [((0 : Int), (1 : Int)), (1, 0)] none)) (0 : Int) 1 = 1 := by
+  refine ⟨_, rfl, ?_, ?_⟩ <;> decide +kernel
+
+/-- **binary when unweighted** (the repaired code): with `weighted` off every entry is 0 or 1, whatever the
+    flags, duplicates, reciprocal edges and self-loops. -/
+theorem unweighted_binary [DecidableEq α] (f : Flags) (hw : f.weighted = false) (es : List ((α × α) × Rat)) (a b : α) :
+    specEntry f es a b = 0 ∨ specEntry f es a b = 1 := by
+  have key : ∀ c : Bool, (if c = true then (1 : Rat) else 0) = 0 ∨ (if c = true then (1 : Rat) else 0) = 1 := by
+    intro c; cases c <;> simp
+  unfold specEntry baseEntry
+  simp only [hw, Bool.false_eq_true, if_false]
+  split
+  · exact key _
+  · exact key _
+
+/-! ## path containment -/
 
 /-- F12 (pinned code): the character-prefix test accepts a member that leaves the folder. -/
 theorem pinned_within_admits_escape :
